@@ -1,6 +1,6 @@
 """C13 witnesses of the recorded findings, on the REAL code (run under /venv/bin/python).
 
-usage: c13_witness.py factory <ALGORITHM> | nsga2_num_trials_seen | cmaes_trial_population | eagle_infeasible_count
+usage: c13_witness.py factory <ALGORITHM> | nsga2_num_trials_seen | cmaes_trial_population | eagle_infeasible_count | eagle_pool_order
 Prints one JSON line and REPRODUCED / NOT-REPRODUCED.
 """
 import json
@@ -122,6 +122,30 @@ def eagle_infeasible_count():
     return info, (info['live']['_infeasible_count'] != info['restored']['_infeasible_count'] and info['live']['size'] != info['restored']['size'])
 
 
+def eagle_pool_order():
+    """pool filled in the order fly 2, fly 1 (results arriving out of order) -> real serialiser -> real decoder: listing order"""
+    from vizier._src.algorithms.designers.eagle_strategy import eagle_strategy as es
+    from vizier._src.algorithms.designers.eagle_strategy import serialization
+    p = float_problem(metric='objective')
+    d = es.EagleStrategyDesigner(p, seed=1)
+    pool = d._firefly_pool
+    for fid in (2, 1, 5, 3):
+        t = vz.Trial(parameters={'x0': fid / 10, 'x1': 0.5})
+        t.complete(vz.Measurement({'objective': float(fid)}))
+        pool._max_fly_id = max(pool._max_fly_id, fid)
+        pool.create_or_update_fly(t, fid)
+    text = serialization.partially_serialize_firefly_pool(pool)
+    restored = serialization.restore_firefly_pool(d._utils, text)
+    live, back = list(pool._pool), list(restored._pool)
+    # designer level: same rng state, shuffled listing of the flies
+    import numpy as np
+    a = [f.id_ for f in pool.get_shuffled_flies(np.random.default_rng(0))]
+    b = [f.id_ for f in restored.get_shuffled_flies(np.random.default_rng(0))]
+    info = {'insertion_order_live': live, 'listing_order_restored': back, 'key_types_restored': sorted({type(k).__name__ for k in restored._pool}),
+            'shuffled_live': a, 'shuffled_restored': b}
+    return info, (live != back or a != b)
+
+
 def main():
     which = sys.argv[1]
     before = env.repo_clean_snapshot()
@@ -130,7 +154,7 @@ def main():
             info, rep = factory(sys.argv[2])
         else:
             info, rep = {'nsga2_num_trials_seen': nsga2_num_trials_seen, 'cmaes_trial_population': cmaes_trial_population,
-                         'eagle_infeasible_count': eagle_infeasible_count}[which]()
+                         'eagle_infeasible_count': eagle_infeasible_count, 'eagle_pool_order': eagle_pool_order}[which]()
     except Exception as e:
         import traceback
         print(json.dumps({'witness': which, 'driver_error': '%s: %s' % (type(e).__name__, str(e)[:300]), 'tb': traceback.format_exc()[-600:]}))
